@@ -65,6 +65,18 @@ fn serialize(l: &Layout, muts: &[Value], many_foreign: bool) -> Vec<u8> {
             e.1 = std::iter::once(first).chain(offs).collect();
         }
     }
+    // structural index mutations: the run list of one entry emptied / extended (prefer an entry of an empty file:
+    // a size of 0 is the case where "nothing to read" shortcuts live)
+    let target = index.iter().position(|e| e.2 == 0).unwrap_or(0);
+    for m in muts {
+        if m["f"] == "idx_noffs" && !index.is_empty() {
+            match m["c"].as_str().unwrap() {
+                "zero" => index[target].1.clear(),
+                "plus1" => { let l = *index[target].1.last().unwrap_or(&0); index[target].1.push(l); }
+                _ => {}
+            }
+        }
+    }
     let mut p = refcodec::dump_blocks(&blocks, &index);
     let total = p.len() as u64;
     // byte-level field overwrites on the serialized stream
@@ -96,18 +108,19 @@ fn serialize(l: &Layout, muts: &[Value], many_foreign: bool) -> Vec<u8> {
                     // a foreign block / the middle of a content block, from the real layout
                     let foreign = l.blocks.iter().find(|(_, b)| matches!(b, Block::Content { .. } | Block::Start { .. }) && {
                         let id = match b { Block::Content { id, .. } | Block::Start { id, .. } => *id, _ => 0 };
-                        Some(id) != l.blocks.iter().find_map(|(o, bb)| if *o as u64 == index[0].1[0] { if let Block::Start { id, .. } = bb { Some(*id) } else { None } } else { None })
+                        Some(id) != l.blocks.iter().find_map(|(o, bb)| if Some(*o as u64) == index[0].1.first().copied() { if let Block::Start { id, .. } = bb { Some(*id) } else { None } } else { None })
                     }).map_or(0, |x| x.0 as u64);
                     let mid = l.blocks.iter().find_map(|(o, b)| if let Block::Content { data, .. } = b { if data.len() > 2 { Some((*o + 17 + data.len() / 2) as u64) } else { None } } else { None }).unwrap_or(3);
                     let special = |actual: u64| match c {
                         "foreign_block" => foreign,
                         "mid_content" => mid,
                         "self_eof" => index[0].3,
+                        "stream_end" => total,
                         _ => class_u64(c, actual, total, 0),
                     };
                     match f {
-                        "idx_noffs" => put64(&mut p, e0, class_u64(c, noffs as u64, total, 0)),
-                        "idx_offset" => { let v = special(index[0].1[0]); put64(&mut p, e0 + 8, v) }
+                        "idx_noffs" => if !matches!(c, "zero" | "plus1") { put64(&mut p, e0, class_u64(c, noffs as u64, total, 0)) },
+                        "idx_offset" => if noffs > 0 { let v = special(index[0].1[0]); put64(&mut p, e0 + 8, v) },
                         "idx_size" => put64(&mut p, e0 + 8 + 8 * noffs, class_u64(c, index[0].2, total, 0)),
                         _ => { let v = special(index[0].3); put64(&mut p, e0 + 8 + 8 * noffs + 8, v) }
                     }
@@ -161,6 +174,9 @@ fn mutate_cfoot(s: &mut Vec<u8>, muts: &[Value], c: &Consts) {
                 let v = class_u64(cl, u64::from(a), n as u64, 0) as u32;
                 s[fs + 8..fs + 12].copy_from_slice(&v.to_le_bytes());
             },
+            "cblock_data" => {
+                if fs > 2 { s[fs.min(3)] ^= 0x10; s[1] ^= 0x81; }
+            }
             "cfoot_last" => {
                 let o = fs + 8 + 4 * count;
                 let v: u32 = match cl { "zero" => 0, "gt_block" => c.block as u32 + 1, _ => u32::MAX };
